@@ -93,29 +93,42 @@ def rule_window(r):
 def rule_slit_u(r):
     mod = pf.lib("resolution")
     fn = mod.func("_q_perp_weights")
-    qe, qi, w = S("q_edges"), S("qi"), S("w")
+    P = pf.positional_params(fn)
+    if len(P) != 3:
+        raise AnalysisError("_q_perp_weights: expected (edges, q, width)")
+    QE, QI, WW = P
+    qe, qi, w = S(QE), S(QI), S(WW)
+    ret = [s_ for s_ in fn.body if isinstance(s_, ast.Return)]
+    if not ret or not isinstance(ret[0].value, ast.Name):
+        raise AnalysisError("_q_perp_weights: return of a name expected")
+    # roles: U = the array that is masked and square-rooted; LIM = the name compared with the edges in the upper mask
+    stores = [s_ for s_ in fn.body if isinstance(s_, ast.Assign) and isinstance(s_.targets[0], ast.Subscript)]
+    if not stores:
+        raise AnalysisError("_q_perp_weights: clipping stores not found")
+    U = pf.unparse(stores[0].targets[0].value)
     env = nf.straightline_env(fn.body)
-    st = _assign(fn, "u_limit")[0]
-    r.check(nf.equal(env["u_limit"], sp.sqrt(qi**2 + w**2)), R, "_q_perp_weights", pf.unparse(st), st.lineno,
-            "upper limit of q' is sqrt(q^2 + w^2)")
-    st = _assign(fn, "u_edges")[0]
-    r.check(nf.equal(nf.py_expr(st.value, {}), qe**2 - qi**2), R, "_q_perp_weights", pf.unparse(st), st.lineno,
-            "u^2 = q'^2 - q^2")
-    stores = [s for s in fn.body if isinstance(s, ast.Assign) and isinstance(s.targets[0], ast.Subscript)
-              and pf.unparse(s.targets[0].value) == "u_edges"]
-    got = {}
-    for s in stores:
-        got[pf.unparse(s.targets[0].slice)] = nf.py_expr(s.value, {"u_limit": env["u_limit"]})
-    lowk = [k for k in got if k in ("q_edges < abs(qi)", "q_edges < np.abs(qi)")]
-    highk = [k for k in got if k == "q_edges > u_limit"]
-    r.check(bool(lowk) and got[lowk[0]] == 0, R, "_q_perp_weights", "u_edges[q_edges < |qi|] = 0", fn.lineno,
-            "clip below at u = 0")
-    r.check(bool(highk) and nf.equal(got[highk[0]], w**2), R, "_q_perp_weights", "u_edges[q_edges > u_limit] = u_limit**2 - qi**2",
-            fn.lineno, "clip above at u^2 = w^2 (found %s)" % (got.get(highk[0]) if highk else None))
-    st = _assign(fn, "weights")[0]
-    e = nf.py_expr(st.value, {})
-    want = sp.Function("np_diff")(sp.sqrt(S("u_edges"))) / w
-    r.check(nf.equal(e, want), R, "_q_perp_weights", pf.unparse(st), st.lineno, "W = delta(u)/w: the 1/L prefactor of (1/L) int_0^L")
+    ust = _assign(fn, U)[0]
+    r.check(nf.equal(nf.py_expr(ust.value, {}), qe**2 - qi**2), R, "_q_perp_weights", pf.unparse(ust), ust.lineno, "u^2 = q'^2 - q^2")
+    low = high = None
+    for s_ in stores:
+        m = s_.targets[0].slice
+        if isinstance(m, ast.Compare) and pf.unparse(m.left) == QE and len(m.ops) == 1:
+            bound = nf.py_expr(m.comparators[0], env, {"abs": sp.Abs})
+            val = nf.py_expr(s_.value, env)
+            if isinstance(m.ops[0], ast.Lt):
+                low = (bound, val, s_)
+            elif isinstance(m.ops[0], ast.Gt):
+                high = (bound, val, s_)
+    r.check(low is not None and nf.equal(low[0], sp.Abs(qi)) and low[1] == 0, R, "_q_perp_weights", "%s[%s < |%s|] = 0" % (U, QE, QI),
+            low[2].lineno if low else fn.lineno, "clip below at u = 0")
+    r.check(high is not None and nf.equal(high[0], sp.sqrt(qi**2 + w**2)), R, "_q_perp_weights", "upper mask at %s > sqrt(%s^2 + %s^2)" % (QE, QI, WW),
+            high[2].lineno if high else fn.lineno, "upper limit of q' is sqrt(q^2 + w^2)")
+    r.check(high is not None and nf.equal(high[1], w**2), R, "_q_perp_weights", "%s[%s > limit] = limit^2 - %s^2" % (U, QE, QI),
+            high[2].lineno if high else fn.lineno, "clip above at u^2 = w^2 (found %s)" % (high[1] if high else None))
+    wst = _assign(fn, ret[0].value.id)[0]
+    e = nf.py_expr(wst.value, {})
+    want = sp.Function("np_diff")(sp.sqrt(S(U))) / w
+    r.check(nf.equal(e, want), R, "_q_perp_weights", pf.unparse(wst), wst.lineno, "W = delta(u)/w: the 1/L prefactor of (1/L) int_0^L")
     # slit_resolution branches
     sr = mod.func("slit_resolution")
     loop = [s for s in sr.body if isinstance(s, ast.For)][0]
@@ -134,7 +147,11 @@ def rule_slit_u(r):
     bodies = dict(chain)
     # l == 0: perpendicular weights with (q_edges, qi, w)
     b = bodies.get("l == 0", [])
-    r.check(bool(b) and pf.unparse(b[0].value) == "_q_perp_weights(q_edges, qi, w)", R, "slit_resolution",
+    edges_var = [pf.unparse(s_.targets[0]) for s_ in sr.body if isinstance(s_, ast.Assign) and pf.unparse(s_.value) == "bin_edges(q_calc)"]
+    if not edges_var:
+        raise AnalysisError("slit_resolution: bin_edges(q_calc) not found")
+    EV = edges_var[0]
+    r.check(bool(b) and pf.unparse(b[0].value) == "_q_perp_weights(%s, qi, w)" % EV, R, "slit_resolution",
             pf.unparse(b[0]) if b else "?", b[0].lineno if b else 0)
     # w == 0: (in_x + abs_x) * diff(q_edges) / (2 l)
     b = bodies.get("w == 0", [])
@@ -143,7 +160,7 @@ def rule_slit_u(r):
     if not final:
         raise AnalysisError("slit_resolution: width-only store not found")
     e = nf.py_expr(final[0].value, {"in_x": S("in_x"), "abs_x": S("abs_x")})
-    want = (S("in_x") + S("abs_x")) * sp.Function("np_diff")(S("q_edges")) / (2 * S("l"))
+    want = (S("in_x") + S("abs_x")) * sp.Function("np_diff")(S(EV)) / (2 * S("l"))
     r.check(nf.equal(e, want), R, "slit_resolution", pf.unparse(final[0]), final[0].lineno,
             "1/(2 l) prefactor of (1/2W) int_-W^W, bin widths from the edges")
     inx = [s for s in b if isinstance(s, ast.Assign) and pf.unparse(s.targets[0]) == "in_x"]
@@ -179,7 +196,7 @@ def rule_slit_u(r):
         a = acc[0].value.args
         k = pf.unparse(lp.target)
         pos = nf.py_expr(a[1], {})
-        okacc = pf.unparse(a[0]) == "q_edges" and pf.unparse(a[2]) == "w" and \
+        okacc = pf.unparse(a[0]) == EV and pf.unparse(a[2]) == "w" and \
             nf.equal(pos, S("qi") + S(k) * S("l") / S("n_length"))
     r.check(okacc, R, "slit_resolution", pf.unparse(acc[0]) if acc else "?", acc[0].lineno if acc else 0,
             "samples at q + k l/n, k = -n..n, each a perpendicular integral of width w")
@@ -245,7 +262,7 @@ def rule_ring(r):
 RULES = [
     ("R-C04-erf", 5, "erf bin masses and bin edges", rule_erf),
     ("R-C04-window", 9, "n-sigma window constants and limits", rule_window),
-    ("R-C04-slit-u", 14, "slit u-substitution bins, prefactors and sample average", rule_slit_u),
+    ("R-C04-slit-u", 13, "slit u-substitution bins, prefactors and sample average", rule_slit_u),
     ("R-C04-ring", 11, "2-D ring mass and polar rotation", rule_ring),
 ]
 
